@@ -87,7 +87,7 @@ func cmdMutant(args []string) {
 		os.Exit(3)
 	}
 	eng.preRegister()
-	timeout := 10
+	timeout := 20
 	if tier == "thorough" {
 		timeout = 60
 	}
